@@ -8,7 +8,7 @@ frames in `wire` order.  (2) Frame level, over the transition system of conn.go 
 number of goroutines: each successful call's frame is on the wire exactly once, failed calls contribute nothing, and
 the frames of one goroutine appear in its call order.
 -/
-import Smpp.Proofs.ConnInv
+import Smpp.Proofs.ConnProgress
 import Smpp.Properties.ConnSource
 import Smpp.Properties.C12
 
@@ -92,5 +92,11 @@ def tbl3 : Nat → Caller := fun i =>
 
 example : ((run (init tbl3) [.start 0, .start 1, .check 1, .check 0, .write 1, .write 0, .writeRet 0, .finish 0,
     .start 2, .check 2, .write 2]).map (·.wire)) = some [.req 1 6, .req 0 5, .req 2 7] := by decide +kernel
+
+/-- **a Send call never stays blocked**: in every reachable state where no goroutine step is enabled (and goroutine steps are
+finitely many, `mu_decreases`) a Send call has returned or was never started — Send waits for nothing but the transport's Write -/
+theorem C14_send_returns_at_rest (tbl) (hd : Distinct tbl) (hf : Fresh tbl) (s : State) (hr : Reach tbl s) (hq : Quiescent s)
+    (i : Nat) (hk : (tbl i).kind = .send) : (s.callers i).pc = .idle ∨ ∃ r, (s.callers i).pc = .done r :=
+  send_returns_at_rest tbl hd hf s hr hq i hk
 
 end Smpp.Properties.C14
